@@ -120,9 +120,12 @@ fn oracle(case: &[u8], obs: &mut Obs) -> Result<(), String> {
     let mut runs = 0u64;
     let mut nt = false;
     for k in &idxs {
-        for (kind, permanent) in [(FaultKind::Error, false), (FaultKind::Eof, false), (FaultKind::Error, true), (FaultKind::Eof, true)] {
-            let ctx = format!("{}; fault {:?} at I/O call {} of {} ({})", ctx0, kind, k, ncalls, if permanent { "permanent" } else { "transient" });
-            let (r, fired, _) = run_with(&b, vec![Fault { at: *k, kind, permanent }], &ctx)?;
+        // error (ErrorKind::Other) and premature EOF, transient and permanent, plus one transient error of another
+        // io::ErrorKind (Unsupported, WouldBlock, UnexpectedEof, TimedOut, ...) per call index
+        let exotic = 1 + ((*k as usize + b.data.len()) % (verif_model::io::ERROR_KINDS.len() - 1)) as u8;
+        for (kind, permanent, ekind) in [(FaultKind::Error, false, 0u8), (FaultKind::Eof, false, 0), (FaultKind::Error, true, 0), (FaultKind::Eof, true, 0), (FaultKind::Error, false, exotic)] {
+            let ctx = format!("{}; fault {:?} ({:?}) at I/O call {} of {} ({})", ctx0, kind, verif_model::io::ERROR_KINDS[ekind as usize], k, ncalls, if permanent { "permanent" } else { "transient" });
+            let (r, fired, _) = run_with(&b, vec![Fault { at: *k, kind, permanent, ekind }], &ctx)?;
             if clean.open_ok && !r.open_ok && !fired[0] {
                 return Err(format!("{}: open_stream failed although no fault fired during it", ctx));
             }
@@ -134,7 +137,7 @@ fn oracle(case: &[u8], obs: &mut Obs) -> Result<(), String> {
     // random multi-fault schedules with short reads mixed in
     for _ in 0..6 {
         let nf = 1 + c.below(4);
-        let faults: Vec<Fault> = (0..nf).map(|_| Fault { at: c.below(ncalls + 2), kind: *c.pick(&[FaultKind::Error, FaultKind::Eof, FaultKind::Short, FaultKind::Short]), permanent: c.chance(30) }).collect();
+        let faults: Vec<Fault> = (0..nf).map(|_| Fault { at: c.below(ncalls + 2), kind: *c.pick(&[FaultKind::Error, FaultKind::Eof, FaultKind::Short, FaultKind::Short]), permanent: c.chance(30), ekind: c.below(8) as u8 }).collect();
         let ctx = format!("{}; fault schedule {:?}", ctx0, faults);
         let (r, fired, _) = run_with(&b, faults, &ctx)?;
         let (fq, lo) = compare(&b, &clean, &r, &fired, &ctx)?;
